@@ -52,7 +52,8 @@ func (c *Ctx) constructors() []*ctorInfo {
 	for _, path := range []string{pkgIR, pkgCONS, pkgTYP, pkgMD} {
 		c.eachFunc(path, func(p *packages.Package, fd *ast.FuncDecl, fn *types.Func) {
 			sig := fn.Type().(*types.Signature)
-			if sig.Recv() != nil || !strings.HasPrefix(fn.Name(), "New") || !fn.Exported() || sig.Results().Len() < 1 {
+			// exported New* and the unexported new* helpers they are split into
+			if sig.Recv() != nil || !strings.HasPrefix(strings.ToLower(fn.Name()), "new") || sig.Results().Len() < 1 {
 				return
 			}
 			n := isIRStructPtr(c, sig.Results().At(0).Type())
@@ -62,6 +63,21 @@ func (c *Ctx) constructors() []*ctorInfo {
 			ci := &ctorInfo{fn: fn, fd: fd, p: p, result: n, flows: map[string]map[string]bool{}}
 			info := p.TypesInfo
 			defs := collectDefs(info, fd.Body)
+			// a method called on a local for its effect feeds the local: x.SetPrec(precision)
+			ast.Inspect(fd.Body, func(nd ast.Node) bool {
+				if es, ok := nd.(*ast.ExprStmt); ok {
+					if call, ok := es.X.(*ast.CallExpr); ok {
+						if se, ok := unparen(call.Fun).(*ast.SelectorExpr); ok {
+							if id, ok := unparen(se.X).(*ast.Ident); ok {
+								if obj := info.ObjectOf(id); obj != nil && namedOf(obj.Type()) != n {
+									defs[obj] = append(defs[obj], call.Args...)
+								}
+							}
+						}
+					}
+				}
+				return true
+			})
 			// derives(e) = set of parameter names reaching e
 			params := map[types.Object]string{}
 			for i := 0; i < sig.Params().Len(); i++ {
@@ -160,16 +176,31 @@ func (c *Ctx) constructors() []*ctorInfo {
 						}
 					}
 					// delegation to another constructor of the same type: NewX(a, b) inside NewY
-					if callee := calleeOf(info, nd); callee != nil && callee != fn && callee.Pkg() == fn.Pkg() && strings.HasPrefix(callee.Name(), "New") {
-						if rs := callee.Type().(*types.Signature).Results(); rs.Len() >= 1 && isIRStructPtr(c, rs.At(0).Type()) == n {
-							csig := callee.Type().(*types.Signature)
+					// … or to a function value of that shape (a table of per-form constructors)
+					var csig *types.Signature
+					cname := ""
+					if callee := calleeOf(info, nd); callee != nil {
+						if callee != fn && callee.Pkg() == fn.Pkg() && strings.HasPrefix(strings.ToLower(callee.Name()), "new") && callee.Type().(*types.Signature).Recv() == nil {
+							csig, cname = callee.Type().(*types.Signature), callee.Name()
+						}
+					} else if tv, ok := info.Types[nd.Fun]; ok && !tv.IsType() {
+						if fs, ok := tv.Type.Underlying().(*types.Signature); ok {
+							csig, cname = fs, "("+exprString(nd.Fun)+")"
+						}
+					}
+					if csig != nil {
+						if rs := csig.Results(); rs.Len() >= 1 && isIRStructPtr(c, rs.At(0).Type()) == n {
 							for i, a := range nd.Args {
 								pi := i
 								if pi >= csig.Params().Len() {
 									pi = csig.Params().Len() - 1
 								}
 								if pi >= 0 {
-									record("→"+callee.Name()+"."+csig.Params().At(pi).Name(), a)
+									pn := csig.Params().At(pi).Name()
+									if pn == "" {
+										pn = fmt.Sprint(pi)
+									}
+									record("→"+cname+"."+pn, a)
 								}
 							}
 						}
@@ -200,7 +231,31 @@ func ruleCTOR1(c *Ctx) []Obligation {
 	for _, ci := range c.constructors() {
 		byName[funcKey(ci.fn)] = ci
 	}
+	// a parameter handed to an unexported helper counts only if the helper stores it in turn
+	var helperStores func(name string, depth int) bool
+	helperStores = func(f string, depth int) bool {
+		// f is "→callee.param"
+		if !strings.HasPrefix(f, "→") || depth > 3 {
+			return true
+		}
+		j := strings.LastIndex(f, ".")
+		callee, param := strings.TrimPrefix(f[:j], "→"), f[j+1:]
+		for _, h := range c.constructors() {
+			if h.fn.Name() == callee && !h.fn.Exported() {
+				for hf := range h.flows[param] {
+					if helperStores(hf, depth+1) {
+						return true
+					}
+				}
+				return false
+			}
+		}
+		return true
+	}
 	for _, ci := range c.constructors() {
+		if !ci.fn.Exported() {
+			continue // helpers are judged through the exported constructors that call them
+		}
 		sig := ci.fn.Type().(*types.Signature)
 		// group parameters by type
 		sameType := map[string]int{}
@@ -211,7 +266,12 @@ func ruleCTOR1(c *Ctx) []Obligation {
 			pv := sig.Params().At(i)
 			key := fmt.Sprintf("%s(%s)", funcKey(ci.fn), pv.Name())
 			o := Obligation{Key: key, Pos: c.pos(ci.fd.Pos()), Verdict: OK, Tags: ctorTags(ci)}
-			fields := sortedKeys(ci.flows[pv.Name()])
+			var fields []string
+			for _, f := range sortedKeys(ci.flows[pv.Name()]) {
+				if helperStores(f, 0) {
+					fields = append(fields, f)
+				}
+			}
 			if why, ok := ctor1Exempt[funcKey(ci.fn)+"."+pv.Name()]; ok {
 				o.Verdict, o.Detail = EXEMPT, why
 				obs = append(obs, o)
@@ -268,7 +328,7 @@ func ruleCTOR2(c *Ctx) []Obligation {
 						filled, how = true, "calls Type()"
 					}
 				}
-				if callee := calleeOf(info, nd); callee != nil && callee != ci.fn && callee.Pkg() == ci.fn.Pkg() && strings.HasPrefix(callee.Name(), "New") {
+				if callee := calleeOf(info, nd); callee != nil && callee != ci.fn && callee.Pkg() == ci.fn.Pkg() && strings.HasPrefix(strings.ToLower(callee.Name()), "new") {
 					if rs := callee.Type().(*types.Signature).Results(); rs.Len() >= 1 && isIRStructPtr(c, rs.At(0).Type()) == ci.result {
 						filled, how = true, "delegates to "+callee.Name()
 					}
